@@ -747,6 +747,49 @@ func c17child(e *env) {
 	}
 	close(start)
 	wg.Wait()
+	// atomicity of the conditional writes: in every round all goroutines add the same fresh key
+	// at once; as on one map exactly one add succeeds and its value is the one stored.
+	raceRounds := 300
+	if iters < 4000 {
+		raceRounds = 100
+	}
+	for round := 0; round < raceRounds && len(out.Errors) == 0; round++ {
+		key := []byte(fmt.Sprintf("race%d", round))
+		okc := make([]bool, g)
+		var rw sync.WaitGroup
+		gate := make(chan struct{})
+		for i := 0; i < g; i++ {
+			rw.Add(1)
+			go func(i int) {
+				defer rw.Done()
+				<-gate
+				okc[i] = h.Add(common.SetRequest{Key: key, Data: []byte(fmt.Sprintf("worker-%d", i)), Flags: uint32(i)}) == nil
+			}(i)
+		}
+		close(gate)
+		rw.Wait()
+		winners := []int{}
+		for i, ok := range okc {
+			if ok {
+				winners = append(winners, i)
+			}
+		}
+		var stored []byte
+		dc, ec := h.Get(common.GetRequest{Keys: [][]byte{key}, Opaques: []uint32{0}, Quiet: []bool{false}})
+		for x := range dc {
+			if !x.Miss {
+				stored = x.Data
+			}
+		}
+		for range ec {
+		}
+		out.Counts["conc_add_race_round"]++
+		if len(winners) != 1 {
+			addErr(fmt.Sprintf("%d goroutines added the missing key %q at once: %d adds succeeded (goroutines %v), one map allows exactly one", g, key, len(winners), winners))
+		} else if string(stored) != fmt.Sprintf("worker-%d", winners[0]) {
+			addErr(fmt.Sprintf("after a race of adds on %q goroutine %d's add succeeded but the stored value is %q", key, winners[0], stored))
+		}
+	}
 	// quiescence: a final read of each goroutine's own keys with the dump restricted to them
 	cl := newC17Client(h)
 	for i := range out.Traces {
